@@ -18,6 +18,9 @@ pub enum VErr {
 }
 
 pub trait VSource {
+    /// the connection itself does not fail (no reset, no write error): a prophecy about the environment. Reads can then
+    /// only fail for want of bytes. Nothing is assumed about it; positive ("is returned") clauses are conditional on it.
+    spec fn reliable(&self) -> bool;
     spec fn inbox(&self) -> Seq<u8>;
     spec fn consumed(&self) -> nat;
     spec fn writes(&self) -> Seq<(Seq<u8>, nat)>;
@@ -32,7 +35,9 @@ pub trait VSource {
                 && final(buf)@ =~= old(self).inbox().take(old(buf)@.len() as int)
                 && final(self).inbox() =~= old(self).inbox().skip(old(buf)@.len() as int)
                 && final(self).consumed() == old(self).consumed() + old(buf)@.len(),
-            old(self).inbox().len() < old(buf)@.len() ==> r is Err;
+            old(self).inbox().len() < old(buf)@.len() ==> r is Err,
+            final(self).reliable() == old(self).reliable(),
+            (old(self).reliable() && old(self).inbox().len() >= old(buf)@.len()) ==> r is Ok;
 
     /// tokio::io::AsyncReadExt::read (de-asynced, N7): delivers SOME prefix of what is there - possibly fewer bytes than
     /// the buffer holds, possibly none (end of stream)
@@ -45,7 +50,8 @@ pub trait VSource {
                 && (forall|i: int| 0 <= i < n ==> final(buf)@[i] == old(self).inbox()[i])
                 && (forall|i: int| n <= i < old(buf)@.len() ==> final(buf)@[i] == old(buf)@[i])
                 && final(self).inbox() =~= old(self).inbox().skip(n as int)
-                && final(self).consumed() == old(self).consumed() + n;
+                && final(self).consumed() == old(self).consumed() + n,
+            final(self).reliable() == old(self).reliable();
 
     /// `read_exact(&mut v[lo..hi])` (N16): fills exactly that sub-range of the vector
     fn read_exact_range(&mut self, v: &mut Vec<u8>, lo: usize, hi: usize) -> (r: Result<usize>)
@@ -59,7 +65,9 @@ pub trait VSource {
                 && (forall|i: int| lo <= i < hi ==> final(v)@[i] == old(self).inbox()[i - lo])
                 && final(self).inbox() =~= old(self).inbox().skip(hi - lo)
                 && final(self).consumed() == old(self).consumed() + (hi - lo),
-            old(self).inbox().len() < hi - lo ==> r is Err;
+            old(self).inbox().len() < hi - lo ==> r is Err,
+            final(self).reliable() == old(self).reliable(),
+            (old(self).reliable() && old(self).inbox().len() >= hi - lo) ==> r is Ok;
     /// `read_exact(&mut v[lo..])` (N16)
     fn read_exact_from(&mut self, v: &mut Vec<u8>, lo: usize) -> (r: Result<usize>)
         requires lo <= old(v)@.len(),
@@ -72,14 +80,18 @@ pub trait VSource {
                 && (forall|i: int| lo <= i < old(v)@.len() ==> final(v)@[i] == old(self).inbox()[i - lo])
                 && final(self).inbox() =~= old(self).inbox().skip(old(v)@.len() - lo)
                 && final(self).consumed() == old(self).consumed() + (old(v)@.len() - lo),
-            old(self).inbox().len() < old(v)@.len() - lo ==> r is Err;
+            old(self).inbox().len() < old(v)@.len() - lo ==> r is Err,
+            final(self).reliable() == old(self).reliable(),
+            (old(self).reliable() && old(self).inbox().len() >= old(v)@.len() - lo) ==> r is Ok;
 
     /// tokio::io::AsyncWriteExt::write_all (de-asynced, N7): the attempt is logged whether or not it succeeds
     fn write_all(&mut self, b: &[u8]) -> (r: core::result::Result<(), IoErr>)
         ensures
             final(self).writes() == old(self).writes().push((b@, old(self).consumed())),
             final(self).inbox() == old(self).inbox(),
-            final(self).consumed() == old(self).consumed();
+            final(self).consumed() == old(self).consumed(),
+            final(self).reliable() == old(self).reliable(),
+            old(self).reliable() ==> r is Ok;
 }
 pub struct IoErr;
 
